@@ -12,39 +12,60 @@
 (* FALSE they are two steps and TLC exhibits the lost update.              *)
 (* Requirement: when all plugins have finished, every diagnostic each of   *)
 (* them returned is in Errors exactly once.                                *)
+(*                                                                         *)
+(* Linter.Error also FILTERS through the linter's ignore state, which the  *)
+(* main goroutine mutates while it lints the statement's body.  The code   *)
+(* runs the plugins and waits for them before it lints the statement       *)
+(* (WaitFirst), so their reports see the ignore state of the statement's   *)
+(* entry; with WaitFirst = FALSE (wait deferred to the end of lint) TLC    *)
+(* shows reports swallowed by an ignore range opened inside the body.      *)
 (***************************************************************************)
 EXTENDS Naturals, Sequences, FiniteSets, TLC, Json
 
 CONSTANTS P,            \* number of plugins on the statement
           K,            \* diagnostics each plugin returns
-          Synchronised
+          Synchronised,
+          Nested,       \* the annotated statement has a body in which a `falco-ignore-start` range is opened
+          WaitFirst     \* customLint waits for the plugins BEFORE the statement itself is linted (the code does)
 
 Plug == 1..P
-VARIABLES errors,   \* the shared slice
+VARIABLES ignoring, \* the linter's ignore state: an unrestricted ignore range is open
+          mainpc,   \* main goroutine: "plugins" (started them) | "body" (linting the body) | "done"
+          errors,   \* the shared slice
           next,     \* next diagnostic index each plugin will report (K+1 = finished)
           snap,     \* unsynchronised variant: the slice header a plugin read and has not yet written back
           has       \* ... and whether it holds one
-vars == <<errors, next, snap, has>>
+vars == <<ignoring, mainpc, errors, next, snap, has>>
 
-Init == errors = <<>> /\ next = [p \in Plug |-> 1] /\ snap = [p \in Plug |-> <<>>] /\ has = [p \in Plug |-> FALSE]
+Init == ignoring = FALSE /\ mainpc = "plugins" /\ errors = <<>> /\ next = [p \in Plug |-> 1] /\ snap = [p \in Plug |-> <<>>] /\ has = [p \in Plug |-> FALSE]
 
 ReportAtomic(p) ==
   /\ Synchronised /\ next[p] <= K
-  /\ errors' = Append(errors, <<p, next[p]>>)
-  /\ next' = [next EXCEPT ![p] = @ + 1] /\ UNCHANGED <<snap, has>>
+  /\ errors' = (IF ignoring THEN errors ELSE Append(errors, <<p, next[p]>>))     \* Linter.Error filters on l.ignore
+  /\ next' = [next EXCEPT ![p] = @ + 1] /\ UNCHANGED <<snap, has, ignoring, mainpc>>
 
 ReadHeader(p) ==
   /\ ~Synchronised /\ next[p] <= K /\ ~has[p]
-  /\ snap' = [snap EXCEPT ![p] = errors] /\ has' = [has EXCEPT ![p] = TRUE] /\ UNCHANGED <<errors, next>>
+  /\ snap' = [snap EXCEPT ![p] = errors] /\ has' = [has EXCEPT ![p] = TRUE] /\ UNCHANGED <<errors, next, ignoring, mainpc>>
 WriteBack(p) ==
   /\ ~Synchronised /\ has[p]
   /\ errors' = Append(snap[p], <<p, next[p]>>)
   /\ next' = [next EXCEPT ![p] = @ + 1] /\ snap' = [snap EXCEPT ![p] = <<>>] /\ has' = [has EXCEPT ![p] = FALSE]
+  /\ UNCHANGED <<ignoring, mainpc>>
 
-Next == \E p \in Plug : ReportAtomic(p) \/ ReadHeader(p) \/ WriteBack(p)
+PluginsDone == \A p \in Plug : next[p] = K + 1
+\* the main goroutine: lint the body of the statement (an ignore-start inside it opens a range), then finish
+LintBody ==
+  /\ mainpc = "plugins" /\ (WaitFirst => PluginsDone)
+  /\ mainpc' = "body" /\ ignoring' = Nested /\ UNCHANGED <<errors, next, snap, has>>
+Finish ==
+  /\ mainpc = "body" /\ PluginsDone        \* the deferred wait of the WaitFirst = FALSE variant sits here
+  /\ mainpc' = "done" /\ UNCHANGED <<ignoring, errors, next, snap, has>>
+
+Next == (\E p \in Plug : ReportAtomic(p) \/ ReadHeader(p) \/ WriteBack(p)) \/ LintBody \/ Finish
 Spec == Init /\ [][Next]_vars /\ WF_vars(Next)
 
-Finished == \A p \in Plug : next[p] = K + 1
+Finished == PluginsDone /\ mainpc = "done"
 Expected == {<<p, i>> : p \in Plug, i \in 1..K}
 AllReported == Finished => (/\ {errors[i] : i \in 1..Len(errors)} = Expected
                             /\ Len(errors) = P * K)
@@ -53,5 +74,6 @@ Terminates == <>Finished
 
 \* one workload per (P, K): what the replayer must find in Linter.Errors (each model diagnostic <<p, i>> is
 \* concretised as a batch of real diagnostics "p<p>-<i>-<j>")
-EmitInv == Finished => PrintT(<<"BEHAVIOUR", ToJson([p |-> P, k |-> K, expected |-> Expected, count |-> P * K])>>)
+EmitInv == Finished => PrintT(<<"BEHAVIOUR", ToJson([p |-> P, k |-> K, nested |-> Nested, expected |-> Expected,
+                                                     count |-> P * K])>>)
 =============================================================================
